@@ -1,8 +1,9 @@
 // Package cserver holds controls for the server lifecycle rules (C17 R17.8 shutdown scan,
-// R17.9 / C08 R8.9 / C14 R14.6 lock leaks).
+// R17.9 / C08 R8.9 / C14 R14.6 lock leaks) and for the assembler step rules (C15 R15.1/R15.2).
 package cserver
 
 import (
+	"bytes"
 	"sync"
 	"sync/atomic"
 )
@@ -96,4 +97,70 @@ func (s *Srv) TidyClose() error {
 	}
 	s.mu.Unlock()
 	return s.err
+}
+
+// ---- C15 R15.1 / R15.2 controls: the per-packet step of a stream assembler ----
+
+// ErrShort stands for "not even a header yet".
+var ErrShort = &errShort{msg: "short"}
+
+type errShort struct{ msg string }
+
+func (e *errShort) Error() string { return e.msg }
+
+// LooksLikeModbusTCP is the controls' stream classifier: expected frame length from the header.
+func LooksLikeModbusTCP(data []byte, allowUnSupportedFunctionCodes bool) (int, error) {
+	if len(data) < 8 {
+		return 0, ErrShort
+	}
+	return 6 + int(data[4])<<8 + int(data[5]), nil
+}
+
+type Asm struct {
+	received bytes.Buffer
+}
+
+// StepGood: negative control.
+func (m *Asm) StepGood() ([]byte, bool, bool) {
+	n, err := LooksLikeModbusTCP(m.received.Bytes(), false)
+	if err == ErrShort {
+		return nil, false, false
+	}
+	if m.received.Len() < n {
+		return nil, false, false
+	}
+	return m.received.Next(n), true, false
+}
+
+// StepEager consumes the frame before it has arrived completely.
+func (m *Asm) StepEager() ([]byte, bool, bool) {
+	n, err := LooksLikeModbusTCP(m.received.Bytes(), false)
+	if err == ErrShort {
+		return nil, false, false
+	}
+	return m.received.Next(n), true, false
+}
+
+// StepWithholds keeps waiting although exactly one complete request is buffered.
+func (m *Asm) StepWithholds() ([]byte, bool, bool) {
+	n, err := LooksLikeModbusTCP(m.received.Bytes(), false)
+	if err == ErrShort {
+		return nil, false, false
+	}
+	if m.received.Len() <= n {
+		return nil, false, false
+	}
+	return m.received.Next(n), true, false
+}
+
+// StepLeftover answers but leaves the last byte of the answered frame in the buffer.
+func (m *Asm) StepLeftover() ([]byte, bool, bool) {
+	n, err := LooksLikeModbusTCP(m.received.Bytes(), false)
+	if err == ErrShort {
+		return nil, false, false
+	}
+	if m.received.Len() < n {
+		return nil, false, false
+	}
+	return m.received.Next(n - 1), true, false
 }
